@@ -405,11 +405,23 @@ def _random_history(args):
                 pk_used["thickness"].add(ks - 1)
                 r.solve_add(ks, rnd.choice([0.0, rnd.uniform(-2, 2)]))
         elif op == "update" and (len(o.pickups) or len(o.solves)):
+            # a solve is satisfiable only while the marginal ray arrives with a slope: an edit since
+            # the solve was added (a radius set to infinity, ...) may have made it parallel to the
+            # axis, and then no vertex position places it at the requested height
+            if have_solve is not None:
+                try:
+                    ya, ua = o.paraxial.marginal_ray()
+                    ok = bool(np.all(np.isfinite(ya))) and abs(float(np.ravel(ua)[have_solve - 1])) > 1e-6
+                except Exception:
+                    ok = False
+                if not ok:
+                    continue
             r.update()
         elif op == "image_solve" and axial and "solves" in features and have_solve is None:
             try:
                 ya, ua = o.paraxial.marginal_ray()
-                ok = np.all(np.isfinite(ya)) and abs(float(np.ravel(ua)[-1])) > 1e-3
+                # (the slope of the ray arriving at the image surface: image_solve divides by it)
+                ok = np.all(np.isfinite(ya)) and abs(float(np.ravel(ua)[-2])) > 1e-3
             except Exception:
                 ok = False
             if ok:
